@@ -283,5 +283,5 @@ static void wlPoolFQ() {
 
 } // namespace
 
-HX_WORKLOAD("C01", "pool-once", wlPoolOnce, SF_ALL, 4000000, 4000000, 1);
+HX_WORKLOAD("C01", "pool-once", wlPoolOnce, SF_ALL | SF_TSO, 4000000, 4000000, 1);
 HX_WORKLOAD("C47", "pool-fq", wlPoolFQ, SF_ALL, 4000000, 4000000, 1);
